@@ -279,20 +279,40 @@ def lookupNode (idPrefixes : List Str) (nodes : List Node) (t : Str) : Option No
     | some n => some n
     | none => nodes.find? (fun n => n.ctype = stripped)
 
-/-- `unaliased.target_fundamental` in `_create_const` for a constant of C type `t`:
-    one alias step is undone (the target of an alias is still unresolved while parsing, so
-    `resolve_aliases` stops at the first alias whose target is not a fundamental type) -/
+/-- `resolve_aliases(node)` while parsing, as far as `_create_const` uses it: `some f` when the
+    loop ends at a `Type` (the fundamental type `type_names[f]`), `none` when it ends at a node
+    that is not a `Type` (an alias it cannot follow further, an enumeration, a constant, or
+    nothing).  One iteration per alias: the `seen` guard (`id(typenode) not in seen`; nodes of a
+    namespace are told apart by content here), then the alias target — created by
+    `create_type_from_ctype_string` when the typedef was parsed, so it carries a fundamental
+    type or only its C type string; in the second case a clone is resolved against the namespace
+    (`_resolve_type_from_ctype` = `lookupNode`) and the loop goes on from the node found.
+    `fuel` only makes the recursion structural: `constUnaliased` passes more than there are
+    nodes, and every iteration adds a new node of the namespace to `seen`
+    (`resolveAliases_of_chain` in Lemmas: every finite chain is followed to its end). -/
+def resolveAliases (idPrefixes : List Str) (nodes : List Node) : Nat → List Node → Node → Option Str
+  | 0, _, _ => none
+  | fuel + 1, seen, .alias n c target =>
+    if Node.alias n c target ∈ seen then none
+    else match createTypeFromCType target with
+      | some f => (lookupTypeName f).map (·.1)
+      | none =>
+        match lookupNode idPrefixes nodes target with
+        | some next => resolveAliases idPrefixes nodes fuel (Node.alias n c target :: seen) next
+        | none => none
+  | _ + 1, _, _ => none
+
+/-- `unaliased.target_fundamental` in `_create_const` for a constant of C type `t`: the type
+    `resolve_aliases` ends at when the declared type names a node of the namespace and the
+    chain ends at a `Type`; the declared type itself otherwise -/
 def constUnaliased (idPrefixes : List Str) (nodes : List Node) (t : Str) : Option Str :=
   let own := createTypeFromCType t
   match lookupNode idPrefixes nodes t with
-  | some (.alias _ _ target) =>
-    match createTypeFromCType target with
-    | some f =>
-      match lookupTypeName f with
-      | some r => some r.1
-      | none => own
+  | some node =>
+    match resolveAliases idPrefixes nodes (nodes.length + 1) [] node with
+    | some f => some f
     | none => own
-  | _ => own
+  | none => own
 
 def typeConstCType (n : Str) : Str :=
   match (typeConstFundamental n).bind lookupTypeName with
